@@ -30,7 +30,7 @@ let subst_gvars gvars (path : n list) : n list =
 let parse_case = function
   | L [A "rt"; L os; L ds; L qs] ->
     let strict = ref false and na = ref false and fb = ref false and caching = ref false and cap = ref 1000
-    and icpt = ref [] and nf = ref false and nal = ref false and late = ref false and grp = ref None and gv = ref [] in
+    and icpt = ref [] and nf = ref false and nal = ref false and late = ref false and grp = ref None and gv = ref [] and enc = ref false in
     List.iter (function
         | L [A "strict"] -> strict := true
         | L [A "na"] -> na := true
@@ -40,6 +40,7 @@ let parse_case = function
         | L [A "nf"] -> nf := true
         | L [A "nal"] -> nal := true
         | L [A "group"; p] -> grp := Some (str p)   (* every definition is registered inside r.Group(p, ...) *)
+        | L [A "enc"] -> enc := true            (* UseEncodedPath: a served request is matched on the escaped text the case carries *)
         | L [A "direct"] -> ()                  (* the same options, applied by calling the option functions with the router *)
         | L [A "lateopt"] -> late := true       (* Router.WithOptions(<no-op option>) after the registrations *)
         | L (A "gvar" :: nm :: re :: _) -> gv := !gv @ [(str nm, str re)]    (* (an optional 4th element: an earlier definition) *)
@@ -47,7 +48,9 @@ let parse_case = function
     { o = { o_strict = !strict; o_na = !na; o_fallback = !fb; o_caching = !caching; o_cap = nat_of_int !cap; o_intercept = !icpt };
       custom_nf = !nf; custom_na = !nal; lateopt = !late; group = !grp; gvars = !gv;
       defs = List.map (function L [L ms; p; nh] -> (List.map str ms, subst_gvars !gv (str p), bool nh) | x -> failwith ("rt: bad def " ^ to_string x)) ds;
-      qs = List.map (function L [A "a"; L _; p; _] -> ("a", [], str p) | L [A k; m; p] -> (k, str m, str p) | x -> failwith ("rt: bad query " ^ to_string x)) qs;
+      qs = List.map (function L [A "a"; L _; p; _] -> ("a", [], str p) | L [A k; m; p] -> (k, str m, str p)
+                            | L [A "s"; m; p; e] -> ("s", str m, if !enc then str e else str p)
+                            | x -> failwith ("rt: bad query " ^ to_string x)) qs;
       adds = List.concat (List.mapi (fun i q -> match q with L [A "a"; L ms; p; nh] -> [(i, (List.map str ms, subst_gvars !gv (str p), bool nh))] | _ -> []) qs) }
   | x -> failwith ("rt: bad case " ^ to_string x)
 
